@@ -795,8 +795,8 @@ func (e *evalCtx) callExpr(x *sx) sval {
 			e.fail("unknown site %q", args[0].val)
 		}
 		tag := nameTag("callee:"+args[1].val)
-		hv := t.h.reg("ghost:called", "(Array Int Bool)")
-		return boolv(and(sel(t.h.get(e.st, hv), tag), not(sel(t.h.get(st, hv), tag))))
+		hv := t.h.reg("ghost:called.cnt", "(Array Int Int)")
+		return boolv("(> " + sel(t.h.get(e.st, hv), tag) + " " + sel(t.h.get(st, hv), tag) + ")")
 	case "spawned":
 		// spawned("name"): a goroutine / timer callback of that function was started
 		if e.fn != t.fn {
@@ -844,11 +844,21 @@ func (e *evalCtx) callExpr(x *sx) sval {
 		a, b = e.coerce(a, b)
 		return sval{term: ite(c.term, a.term, b.term), sort: a.sort, typ: a.typ}
 	case "unchanged":
-		// unchanged(x.f, ...): field values equal to their old() values
+		// unchanged(x.f, ...): field values equal to their old() values;
+		// unchanged("site", x.f, ...): equal to their values at that site (e.g. after the lock was taken)
 		var cs []string
+		base := e.old
+		if len(args) > 0 && args[0].op == "str" {
+			st, ok := t.siteState[args[0].val]
+			if !ok {
+				e.fail("unknown site %q", args[0].val)
+			}
+			base = st
+			args = args[1:]
+		}
 		for _, a := range args {
 			now := e.eval(a)
-			was := e.with(e.old).eval(a)
+			was := e.with(base).eval(a)
 			cs = append(cs, eq(now.term, was.term))
 		}
 		return boolv(and(cs...))
@@ -987,7 +997,18 @@ func (e *evalCtx) callExpr(x *sx) sval {
 		return sval{term: sel(t.h.get(e.st, hv), v.term), sort: t.sortOf(pt.Elem()), typ: pt.Elem()}
 	case "fresh":
 		// fresh(p): allocated during this call (not present in the old state)
+		// fresh(p, "site"): allocated after that site was (last) passed
 		v := e.eval(args[0])
+		if len(args) == 2 {
+			if args[1].op != "str" {
+				e.fail("fresh(p, \"site\")")
+			}
+			st, ok := t.siteState[args[1].val]
+			if !ok {
+				e.fail("unknown site %q", args[1].val)
+			}
+			return boolv("(> " + v.term + " " + t.h.get(st, "alloc") + ")")
+		}
 		return boolv("(> " + v.term + " " + t.h.get(e.old, "alloc") + ")")
 	}
 	// prelude / uninterpreted spec functions
